@@ -192,21 +192,42 @@ def rule_generators(ctx, res):
     s.run()
     ok = all(p.ret[0] == 'agg' and strip_transparent(p.ret[2].get('bytes'))[0] == 'call' and p.ret[2].get('bytes')[1].endswith('to_be_bytes') for p in s.complete_paths()) and s.complete_paths()
     res.check(ok, 'TABLE', b.path, 'ids are serialised big-endian')
+    rule_prefix_extraction(ctx, res)
+
+
+def rule_prefix_extraction(ctx, res):
+    """the activity prefix of a received id is all of its upper 40 bits: an id is attributed to an activity only if the whole
+    prefix equals that activity's (shared with C12 / C03: which activity a response is routed to)"""
     b = ctx.body(T + 'TransactionID::action_id')
     s = Sym(b)
     s.run()
-    ok = all(p.ret[0] == 'call' and p.ret[1] == T + 'ActionID::from_transaction_id' and find_calls(p.ret, 'from_be_bytes') for p in s.complete_paths()) and s.complete_paths()
+    ok = all(p.ret[0] == 'call' and p.ret[1] == T + 'ActionID::from_transaction_id' and find_calls(p.ret, 'from_be_bytes')
+             and field_chain(strip_transparent(find_calls(p.ret, 'from_be_bytes')[0][2][0])) == ['bytes'] for p in s.complete_paths()) and s.complete_paths()
     res.check(ok, 'TABLE', b.path, 'the action prefix is read back big-endian (sibling of to_be_bytes)')
     b = ctx.body(T + 'ActionID::from_transaction_id')
     res.touch(b)
     s = Sym(b)
     s.run()
-    ok = False
+    ok = bool(s.complete_paths())
+    why = ''
     for p in s.complete_paths():
-        for x in lib.term_walk(p.ret):
-            if isinstance(x, tuple) and x and x[0] == 'bin' and x[1] == 'Shr' and term_int(x[3]) == 24:
-                ok = True
-    res.check(ok, 'TABLE', b.path, 'reader shift (>> MESSAGE_ID_SHIFT) equals the writer shift (<< MESSAGE_ID_SHIFT)')
+        v = p.ret[2].get('action_id') if p.ret[0] == 'agg' else None
+        v = strip_transparent(v) if v is not None else None
+        good = False
+        if isinstance(v, tuple) and v[0] == 'bin' and v[1] == 'Shr' and term_int(v[3]) == 24:
+            x = strip_transparent(v[2])
+            if is_param(x) and x[1] == 1:
+                good = True
+            elif isinstance(x, tuple) and x[0] == 'bin' and x[1] == 'BitAnd':
+                # a mask before the shift is harmless only if it keeps every one of the 40 prefix bits
+                for a_, m_ in ((x[2], x[3]), (x[3], x[2])):
+                    mm = term_int(strip_transparent(m_))
+                    if is_param(strip_transparent(a_)) and mm is not None and (mm >> 24) & ((1 << 40) - 1) == (1 << 40) - 1:
+                        good = True
+        if not good or p.conds:
+            ok = False
+            why = fmt(v)[:100] if v is not None else fmt(p.ret)[:100]
+    res.check(ok, 'TABLE', b.path, 'reader shift (>> MESSAGE_ID_SHIFT) equals the writer shift (<< MESSAGE_ID_SHIFT)', detail=why)
 
 
 def rule_tid_sources(ctx, res):
